@@ -465,13 +465,18 @@ class schur_pressure_correction {
                         }
                     }
 
-                    (*L)[i] = s;
+                    // Kpp may only be adjusted where its diagonal is stored.
+                    // L should stay consistent with that, because spmv()
+                    // computes Kpp x as (adjusted Kpp) x + L x.
+                    bool found = false;
                     for(ptrdiff_t j = Kpp->ptr[i], e = Kpp->ptr[i+1]; j < e; ++j) {
                         if (Kpp->col[j] == i) {
                             Kpp->val[j] -= s;
+                            found = true;
                             break;
                         }
                     }
+                    (*L)[i] = found ? s : math::zero<value_type>();
                 }
                 Ld = backend_type::copy_vector(L, bprm);
             } else if (prm.adjust_p == 2) {
